@@ -156,6 +156,20 @@ func (m *model) release() {
 	}
 }
 
+// probe caches VerifC31Probe: (capacity, id) -> first and overflow bucket
+var probes sync.Map
+
+func probe(capacity uint, id string) (int, int) {
+	k := fmt.Sprintf("%d/%s", capacity, id)
+	if v, ok := probes.Load(k); ok {
+		p := v.([2]int)
+		return p[0], p[1]
+	}
+	i1, i2 := cache.VerifC31Probe(capacity, id)
+	probes.Store(k, [2]int{i1, i2})
+	return i1, i2
+}
+
 // ---- skipping excluded branches ---------------------------------------------------------------------------
 var excluded sync.Map // history key -> reason
 
@@ -368,16 +382,35 @@ func exec3(r *ev.Run, nIDs int, h []event, again *bool) (string, string, *seqx.F
 		if nIns < 0 {
 			ev.Harness("queue bookkeeping: model %d, real %d", len(m.queue), post.Queued)
 		}
+		inserted := m.queue[:nIns]
+		// would any of these inserts have had to displace stored fingerprints? (predicted from bucket
+		// occupancy; the library's victim choice is random, so such branches are excluded)
 		for _, g := range gens {
-			c2, l2 := cache.VerifC31FilterInfo(g.h)
-			if !preserved(g.layout, l2) {
-				return exclude("cuckoo_eviction")
+			nb := len(g.layout) / 8
+			occ := make([]int, nb)
+			for i := 0; i+1 < len(g.layout); i += 2 {
+				if g.layout[i] != 0 || g.layout[i+1] != 0 {
+					occ[i/8]++
+				}
 			}
-			if int(c2)-int(g.count) != nIns {
-				return exclude("filter_insert_failed")
+			for _, id := range inserted {
+				i1, i2 := probe(m.capOf[g.h], id)
+				switch {
+				case occ[i1] < 4:
+					occ[i1]++
+				case occ[i2] < 4:
+					occ[i2]++
+				default:
+					return exclude("cuckoo_eviction")
+				}
 			}
 		}
-		inserted := m.queue[:nIns]
+		for _, g := range gens {
+			c2, l2 := cache.VerifC31FilterInfo(g.h)
+			if !preserved(g.layout, l2) || int(c2)-int(g.count) != nIns {
+				ev.Harness("the filter displaced or lost fingerprints although the occupancy prediction said no eviction was needed (history %v)", h)
+			}
+		}
 		m.queue = append([]string{}, m.queue[nIns:]...)
 		for _, id := range inserted {
 			for i := range m.tr {
@@ -555,7 +588,7 @@ func main() {
 		MaxDepth: depth, Workers: 16,
 	})
 	r.Set("traces_validated_against_impl", r.Count("transitions"))
-	for _, k := range []string{"excluded_filter_false_positive", "excluded_add_queue_overflow", "excluded_cuckoo_eviction", "excluded_filter_insert_failed"} {
+	for _, k := range []string{"excluded_filter_false_positive", "excluded_add_queue_overflow", "excluded_cuckoo_eviction"} {
 		r.Add(k, 0)
 	}
 	r.Set("bounds", map[string]any{"trace_ids": nIDs, "depth": depth, "kept_capacity": fmt.Sprint(keptCaps), "dropped_capacity": fmt.Sprint(dropCaps) + " (8 and 4 filter slots)",
